@@ -14,6 +14,7 @@ import (
 	sdkmath "cosmossdk.io/math"
 	sdk "github.com/cosmos/cosmos-sdk/types"
 	"github.com/cosmos/cosmos-sdk/types/query"
+	banktypes "github.com/cosmos/cosmos-sdk/x/bank/types"
 
 	"github.com/provenance-io/provenance/x/exchange"
 	"github.com/provenance-io/provenance/x/exchange/keeper"
@@ -57,6 +58,32 @@ type c13Env struct {
 	auth    string
 	w       *CaseWriter
 	shapes  map[string]bool
+	// per history
+	nameCtr int      // name tag of the next market creation
+	forced  []string // operation kinds that must be generated next, in order
+}
+
+// c13Coins prints sdk.Coins (in the order given) as a Coq [coins] term.
+func c13Coins(cs sdk.Coins) string {
+	parts := make([]string, len(cs))
+	for i, c := range cs {
+		parts[i] = fmt.Sprintf("(%s, %s)", c13Str(c.Denom), c13Z(c.Amount.Int64()))
+	}
+	return "[" + strings.Join(parts, ";") + "]"
+}
+
+type c13Commit struct {
+	market uint32
+	acct   string
+	amount sdk.Coins
+}
+
+func (e *c13Env) entriesTerm(es []exchange.AccountAmount) string {
+	parts := make([]string, len(es))
+	for i, x := range es {
+		parts[i] = fmt.Sprintf("(%s, %s)", e.addrVar(x.Account), c13Coins(x.Amount))
+	}
+	return "[" + strings.Join(parts, ";") + "]"
 }
 
 var c13Assets = []string{"aaa", "aaab", "bbb"}
@@ -138,6 +165,10 @@ func (e *c13Env) epTerm(ep c13Endpoint) string {
 		return "(EPaySrc " + e.addrVar(ep.addr) + ")"
 	case "paytgt":
 		return "(EPayTgt " + e.addrVar(ep.addr) + ")"
+	case "commitmkt":
+		return fmt.Sprintf("(ECommitMkt %d)", ep.market)
+	case "commitall":
+		return "ECommitAll"
 	default:
 		return "EPayAll"
 	}
@@ -151,6 +182,7 @@ type c13Page struct {
 	ok     bool
 	orders []*exchange.Order
 	pays   []*exchange.Payment
+	coms   []c13Commit
 	next   []byte
 	total  uint64
 }
@@ -197,6 +229,24 @@ func (e *c13Env) callPage(ctx sdk.Context, ep c13Endpoint, otype string, after u
 				return err
 			}
 			pg.pays, pr2 = r.Payments, r.Pagination
+		case "commitmkt":
+			r, err := e.qs.GetMarketCommitments(ctx, &exchange.QueryGetMarketCommitmentsRequest{MarketId: ep.market, Pagination: pr})
+			if err != nil {
+				return err
+			}
+			for _, c := range r.Commitments {
+				pg.coms = append(pg.coms, c13Commit{market: ep.market, acct: c.Account, amount: c.Amount})
+			}
+			pr2 = r.Pagination
+		case "commitall":
+			r, err := e.qs.GetAllCommitments(ctx, &exchange.QueryGetAllCommitmentsRequest{Pagination: pr})
+			if err != nil {
+				return err
+			}
+			for _, c := range r.Commitments {
+				pg.coms = append(pg.coms, c13Commit{market: c.MarketId, acct: c.Account, amount: c.Amount})
+			}
+			pr2 = r.Pagination
 		default:
 			r, err := e.qs.GetAllPayments(ctx, &exchange.QueryGetAllPaymentsRequest{Pagination: pr})
 			if err != nil {
@@ -251,6 +301,9 @@ func (e *c13Env) itemsTerm(pg c13Page) string {
 	for _, p := range pg.pays {
 		parts = append(parts, "IP "+e.addrVar(p.Source)+" "+c13Str(p.ExternalId))
 	}
+	for _, c := range pg.coms {
+		parts = append(parts, fmt.Sprintf("IC %d %s %s", c.market, e.addrVar(c.acct), c13Coins(c.amount)))
+	}
 	return "[" + strings.Join(parts, ";") + "]"
 }
 
@@ -292,9 +345,14 @@ func (e *c13Env) session(ctx sdk.Context, ep c13Endpoint, otype string, after, l
 // ---- observation after a step ----
 
 type c13View struct {
-	orders []c13Order
-	pays   []c13Pay
+	orders  []c13Order
+	pays    []c13Pay
+	markets []uint32 // every known market id (GetAllMarkets)
+	commits []c13Commit
 }
+
+// c13NoMarket is a market id that no history ever creates.
+const c13NoMarket = uint32(11)
 
 func (e *c13Env) observe(ctx sdk.Context, maxID uint64, extra *int) (string, c13View) {
 	var view c13View
@@ -390,8 +448,85 @@ func (e *c13Env) observe(ctx sdk.Context, maxID uint64, extra *int) (string, c13
 		}
 	}
 	j := func(l []string) string { return "[" + strings.Join(l, "; ") + "]" }
-	term := fmt.Sprintf("{| ob_probed := %s; ob_orders := %s; ob_mismatch := %d; ob_all := %s;\n      ob_mkt := %s;\n      ob_own := %s;\n      ob_asset := %s;\n      ob_ext := %s;\n      ob_pays := %s;\n      ob_psrc := %s;\n      ob_ptgt := %s;\n      ob_pget := %s |}",
-		c13Ids(probed), j(found), mism, c13Ids(all), j(mk), j(ow), j(as), j(ex), e.paysTerm(pall.pays), j(ps), j(pt), j(pgs))
+	// markets: the listing, and every listed market fetched by id (its name carries the tag
+	// given at creation, so a market replaced under the same id shows)
+	var mids, mnames []string
+	_ = try(func() error {
+		r, err := e.qs.GetAllMarkets(ctx, &exchange.QueryGetAllMarketsRequest{Pagination: big})
+		if err != nil {
+			return err
+		}
+		for _, b := range r.Markets {
+			view.markets = append(view.markets, b.MarketId)
+			mids = append(mids, fmt.Sprint(b.MarketId))
+		}
+		return nil
+	})
+	for _, m := range view.markets {
+		tag := int64(-1)
+		_ = try(func() error {
+			r, err := e.qs.GetMarket(ctx, &exchange.QueryGetMarketRequest{MarketId: m})
+			if err == nil && r.Market != nil && r.Market.MarketId == m {
+				var n int64
+				if _, err2 := fmt.Sscanf(r.Market.MarketDetails.Name, "c13-%d", &n); err2 == nil {
+					tag = n
+				}
+			}
+			return err
+		})
+		if tag >= 0 {
+			mnames = append(mnames, fmt.Sprintf("(%d, %d)", m, tag))
+		}
+	}
+	// commitments
+	comTerm := func(c c13Commit) string {
+		return fmt.Sprintf("(%d, %s, %s)", c.market, e.addrVar(c.acct), c13Coins(c.amount))
+	}
+	call := e.callPage(ctx, c13Endpoint{kind: "commitall"}, "", 0, big)
+	view.commits = call.coms
+	var cs, cm, ca, cg []string
+	for _, c := range call.coms {
+		cs = append(cs, comTerm(c))
+	}
+	probeMarkets := append(append([]uint32{}, view.markets...), c13NoMarket)
+	for _, m := range probeMarkets {
+		pg := e.callPage(ctx, c13Endpoint{kind: "commitmkt", market: m}, "", 0, big)
+		var l []string
+		for _, c := range pg.coms {
+			l = append(l, fmt.Sprintf("(%s, %s)", e.addrVar(c.acct), c13Coins(c.amount)))
+		}
+		cm = append(cm, fmt.Sprintf("(%d, %s)", m, j(l)))
+	}
+	for _, a := range append(append([]sdk.AccAddress{}, e.owners...), e.admin) {
+		var l []string
+		_ = try(func() error {
+			r, err := e.qs.GetAccountCommitments(ctx, &exchange.QueryGetAccountCommitmentsRequest{Account: a.String()})
+			if err != nil {
+				return err
+			}
+			for _, c := range r.Commitments {
+				l = append(l, fmt.Sprintf("(%d, %s)", c.MarketId, c13Coins(c.Amount)))
+			}
+			return nil
+		})
+		ca = append(ca, fmt.Sprintf("(%s, %s)", e.addrVar(a.String()), j(l)))
+	}
+	for _, m := range probeMarkets {
+		for _, a := range e.owners {
+			var amt sdk.Coins
+			_ = try(func() error {
+				r, err := e.qs.GetCommitment(ctx, &exchange.QueryGetCommitmentRequest{Account: a.String(), MarketId: m})
+				if err == nil {
+					amt = r.Amount
+				}
+				return err
+			})
+			cg = append(cg, fmt.Sprintf("(%d, %s, %s)", m, e.addrVar(a.String()), c13Coins(amt)))
+		}
+	}
+	term := fmt.Sprintf("{| ob_probed := %s; ob_orders := %s; ob_mismatch := %d; ob_all := %s;\n      ob_mkt := %s;\n      ob_own := %s;\n      ob_asset := %s;\n      ob_ext := %s;\n      ob_pays := %s;\n      ob_psrc := %s;\n      ob_ptgt := %s;\n      ob_pget := %s;\n      ob_markets := %s; ob_mnames := %s;\n      ob_commits := %s;\n      ob_cmkt := %s;\n      ob_cacct := %s;\n      ob_cget := %s |}",
+		c13Ids(probed), j(found), mism, c13Ids(all), j(mk), j(ow), j(as), j(ex), e.paysTerm(pall.pays), j(ps), j(pt), j(pgs),
+		j(mids), j(mnames), j(cs), j(cm), j(ca), j(cg))
 	return term, view
 }
 
@@ -410,9 +545,14 @@ func (e *c13Env) checkpoint(ctx sdk.Context, view c13View, full bool, mism *int)
 	for _, d := range c13Assets {
 		eps = append(eps, c13Endpoint{kind: "asset", denom: d})
 	}
+	nOrderEps := len(eps) // market, owner and asset listings (filteredPaginateAfterOrder)
 	eps = append(eps, c13Endpoint{kind: "all"}, c13Endpoint{kind: "payall"})
 	for _, a := range e.owners {
 		eps = append(eps, c13Endpoint{kind: "paysrc", addr: a.String()}, c13Endpoint{kind: "paytgt", addr: a.String()})
+	}
+	eps = append(eps, c13Endpoint{kind: "commitall"})
+	for _, m := range view.markets {
+		eps = append(eps, c13Endpoint{kind: "commitmkt", market: m})
 	}
 	count := func(ep c13Endpoint) int {
 		n := 0
@@ -446,6 +586,14 @@ func (e *c13Env) checkpoint(ctx sdk.Context, view c13View, full bool, mism *int)
 		case "paytgt":
 			for _, p := range view.pays {
 				if p.tgt == ep.addr {
+					n++
+				}
+			}
+		case "commitall":
+			n = len(view.commits)
+		case "commitmkt":
+			for _, c := range view.commits {
+				if c.market == ep.market {
 					n++
 				}
 			}
@@ -488,10 +636,22 @@ func (e *c13Env) checkpoint(ctx sdk.Context, view c13View, full bool, mism *int)
 	// forced shapes: the two repaired defects and the payments-by-source reverse listing
 	combos = append(combos,
 		combo{ep: c13Endpoint{kind: "asset", denom: "aaa"}, reverse: r.Intn(2) == 0, keymode: r.Intn(2) == 0, otype: []string{"", "ask", "bid"}[r.Intn(3)]},
-		combo{ep: eps[r.Intn(2+len(e.owners)+len(c13Assets))], after: c13Max, reverse: true, keymode: r.Intn(2) == 0},
-		combo{ep: eps[r.Intn(2+len(e.owners)+len(c13Assets))], after: c13Max, reverse: false, keymode: r.Intn(2) == 0},
+		combo{ep: eps[r.Intn(nOrderEps)], after: c13Max, reverse: true, keymode: r.Intn(2) == 0},
+		combo{ep: eps[r.Intn(nOrderEps)], after: c13Max, reverse: false, keymode: r.Intn(2) == 0},
 		combo{ep: c13Endpoint{kind: "paysrc", addr: e.owners[r.Intn(len(e.owners))].String()}, reverse: true, keymode: r.Intn(2) == 0},
 	)
+	// the commitment listings: the market holding the most commitments, or all of them
+	if len(view.commits) > 0 {
+		cep := c13Endpoint{kind: "commitall"}
+		if r.Intn(3) != 0 {
+			cep = c13Endpoint{kind: "commitmkt", market: view.commits[r.Intn(len(view.commits))].market}
+		}
+		combos = append(combos, combo{ep: cep, reverse: r.Intn(2) == 0, keymode: r.Intn(2) == 0})
+	}
+	// GetAllOrders (query.FilteredPaginate) in the mode and direction not drawn above
+	if full || r.Intn(3) == 0 {
+		combos = append(combos, combo{ep: c13Endpoint{kind: "all"}, reverse: r.Intn(2) == 0, keymode: r.Intn(2) == 0})
+	}
 	for _, c := range combos {
 		n := count(c.ep)
 		if n > 6 {
@@ -511,8 +671,13 @@ func (e *c13Env) checkpoint(ctx sdk.Context, view c13View, full bool, mism *int)
 	out = append(out, e.session(ctx, ep, "", 0, 0, r.Intn(2) == 0, r.Intn(2) == 0, false, 3, mism))
 	// the maximum limit (the SDK's PaginationMaxLimit) with a type filter, both directions
 	for i := 0; i < 2; i++ {
-		ep = eps[r.Intn(2+len(e.owners)+len(c13Assets))]
-		out = append(out, e.session(ctx, ep, []string{"ask", "bid", ""}[r.Intn(3)], 0, c13Max, i == 0, r.Intn(3) != 0, false, 4, mism))
+		ep = eps[r.Intn(nOrderEps)]
+		after := uint64(0)
+		if r.Intn(4) == 0 {
+			as := afters()
+			after = as[r.Intn(len(as))]
+		}
+		out = append(out, e.session(ctx, ep, []string{"ask", "bid", ""}[r.Intn(3)], after, c13Max, i == 0, r.Intn(3) != 0, r.Intn(2) == 0, 4, mism))
 	}
 	return out
 }
@@ -534,21 +699,8 @@ func TestC13(t *testing.T) {
 		ensureAccount(app, baseCtx, a)
 		fund(t, app, baseCtx, a, rich)
 	}
-	for i := 0; i < 2; i++ {
-		mid, err := app.ExchangeKeeper.CreateMarket(baseCtx, exchange.Market{
-			MarketDetails:   exchange.MarketDetails{Name: fmt.Sprintf("c13-%d", i)},
-			AcceptingOrders: true, AllowUserSettlement: true,
-			AccessGrants: []exchange.AccessGrant{{Address: e.admin.String(), Permissions: exchange.AllPermissions()}},
-		})
-		if err != nil {
-			t.Fatalf("create market: %v", err)
-		}
-		e.markets = append(e.markets, mid)
-	}
-	// a market id identifies at most one market: re-creating an existing id must fail
-	if _, err := app.ExchangeKeeper.CreateMarket(baseCtx, exchange.Market{MarketId: e.markets[0], MarketDetails: exchange.MarketDetails{Name: "dup"}}); err == nil {
-		t.Fatalf("creating a second market with id %d succeeded", e.markets[0])
-	}
+	// The two base markets are created INSIDE every history (its first two operations), through
+	// MsgGovCreateMarket, so that market-id allocation is part of the modelled history.
 	e.handle = func(ctx sdk.Context, msg sdk.Msg) error {
 		cctx, write := ctx.CacheContext()
 		err := try(func() error {
@@ -568,19 +720,33 @@ func TestC13(t *testing.T) {
 	nHist := scale(36, 300)
 	for hi := 0; hi < nHist; hi++ {
 		ctx, _ := baseCtx.CacheContext()
-		nSteps := 14 + r.Intn(14)
+		nSteps := 16 + r.Intn(14)
+		// a third of the histories page after EVERY step, the others after one step in five
+		everyStep := hi%3 == 0
+		e.markets = nil
+		e.nameCtr = 0
+		e.forced = []string{"mcreate-auto", "mcreate-auto"}
+		if hi%6 == 0 {
+			// shapes that must occur in every run: an external id of exactly 100 bytes, a source
+			// with an empty-external-id payment next to another one, a 100-byte payment id
+			e.forced = append(e.forced, "create-ext100", "pay-empty", "pay-x", "pay-ext100")
+		}
+		if hi%6 == 3 {
+			e.forced = append(e.forced, "acct-squat-next", "mcreate-auto", "mcreate-explicit", "mcreate-dup", "commit", "commit", "settle")
+		}
 		var steps []string
 		var descOps []string
 		var view c13View
 		maxID := uint64(0)
 		accepted := 0
 		for si := 0; si < nSteps; si++ {
-			opTerm, desc, run := e.genOp(ctx, view, maxID)
+			opTerm, desc, kind, run := e.genOp(ctx, view, maxID)
 			before := maxID
+			marketsBefore := append([]uint32{}, view.markets...)
 			err := run()
 			ok := err == nil
 			created := "None"
-			if ok && strings.HasPrefix(opTerm, "OCreate") {
+			if ok && kind == "OCreate" {
 				// the id handed out = the largest id now present
 				r2, _ := e.qs.GetAllOrders(ctx, &exchange.QueryGetAllOrdersRequest{Pagination: &query.PageRequest{Limit: 1, Reverse: true}})
 				if r2 != nil && len(r2.Orders) == 1 && r2.Orders[0].OrderId > before {
@@ -589,19 +755,37 @@ func TestC13(t *testing.T) {
 				}
 			}
 			w.Count("ops")
-			w.Count("op_" + strings.SplitN(opTerm, " ", 2)[0])
+			w.Count("op_" + kind)
 			if ok {
 				accepted++
 				w.Count("ops_accepted")
+				w.Count("ok_" + kind)
 			} else {
 				w.Count("ops_rejected")
 			}
 			mism := 0
 			var sess []string
 			// decide on a checkpoint before observing so that its mismatch count is included
-			doCp := si == nSteps-1 || r.Intn(5) == 0
+			doCp := si >= 2 && (si == nSteps-1 || everyStep || r.Intn(5) == 0)
 			var obsTerm string
 			obsTerm, view = e.observe(ctx, maxID, &mism)
+			if ok && kind == "CMarketCreate" {
+				// the id handed out = the market id that was not listed before
+				for _, m := range view.markets {
+					isNew := true
+					for _, b := range marketsBefore {
+						if b == m {
+							isNew = false
+						}
+					}
+					if isNew {
+						created = fmt.Sprintf("(Some %d)", m)
+						if len(e.markets) < 2 {
+							e.markets = append(e.markets, m)
+						}
+					}
+				}
+			}
 			if doCp {
 				m2 := 0
 				sess = e.checkpoint(ctx, view, si == nSteps-1, &m2)
@@ -611,6 +795,8 @@ func TestC13(t *testing.T) {
 				}
 				w.Count("checkpoints")
 			}
+			w.CountN("hist_ext100_orders", int64(c13CountExt100(view)))
+			w.CountN("hist_empty_ext_payments", int64(c13CountEmptyPay(view)))
 			steps = append(steps, fmt.Sprintf("St (%s) %s %s\n    %s\n    [%s]", opTerm, coqBool(ok), created, obsTerm, strings.Join(sess, ";\n     ")))
 			d := fmt.Sprintf("%d: %s ok=%v", si, desc, ok)
 			if err != nil {
@@ -622,13 +808,17 @@ func TestC13(t *testing.T) {
 			}
 			descOps = append(descOps, d)
 		}
+		if everyStep {
+			w.Count("histories_paged_after_every_step")
+		}
 		var lets strings.Builder
 		for _, a := range append(append([]sdk.AccAddress{}, e.owners...), e.admin) {
 			fmt.Fprintf(&lets, "let %s := %s in ", e.names[a.String()], c13Bytes(a))
 		}
 		term := "(" + lets.String() + "CHist [\n  " + strings.Join(steps, ";\n  ") + "])%N"
-		w.Add(term, map[string]any{"history": hi, "steps": descOps, "open_orders_at_end": len(view.orders), "payments_at_end": len(view.pays)})
-		if accepted > 0 && len(view.orders)+len(view.pays) > 0 {
+		w.Add(term, map[string]any{"history": hi, "steps": descOps, "open_orders_at_end": len(view.orders), "payments_at_end": len(view.pays),
+			"commitments_at_end": len(view.commits), "markets_at_end": len(view.markets), "paged_after_every_step": everyStep})
+		if accepted > 0 && len(view.orders)+len(view.pays)+len(view.commits) > 0 {
 			w.Nontrivial(strings.Join(descOps, "|"))
 		}
 		w.CountN("history_len_total", int64(nSteps))
@@ -636,9 +826,35 @@ func TestC13(t *testing.T) {
 	w.Flush(t)
 }
 
+// c13CountExt100 / c13CountEmptyPay: open orders with a 100-byte external id / payments with an
+// empty external id in a view (summed over steps they measure how long such shapes stay around).
+func c13CountExt100(v c13View) int {
+	n := 0
+	for _, o := range v.orders {
+		if len(o.ext) == 100 {
+			n++
+		}
+	}
+	for _, p := range v.pays {
+		if len(p.ext) == 100 {
+			n++
+		}
+	}
+	return n
+}
+func c13CountEmptyPay(v c13View) int {
+	n := 0
+	for _, p := range v.pays {
+		if p.ext == "" {
+			n++
+		}
+	}
+	return n
+}
+
 // genOp picks the next operation: returns the model operation term, a description and the
 // function performing it through the real message handlers.
-func (e *c13Env) genOp(ctx sdk.Context, view c13View, maxID uint64) (string, string, func() error) {
+func (e *c13Env) genOrderPayOp(ctx sdk.Context, view c13View, maxID uint64) (string, string, func() error) {
 	r := e.r
 	pickOwner := func() sdk.AccAddress { return e.owners[r.Intn(len(e.owners))] }
 	pickExt := func() string {
@@ -788,9 +1004,12 @@ func (e *c13Env) genOp(ctx sdk.Context, view c13View, maxID uint64) (string, str
 			msg := &exchange.MsgFillBidsRequest{Seller: seller.String(), MarketId: b.market, TotalAssets: sdk.NewCoins(sdk.NewInt64Coin(b.asset, total)), BidOrderIds: ids}
 			return fmt.Sprintf("OFill %s None", c13Ids(ids)), fmt.Sprintf("fill-bids %v", ids), func() error { return e.handle(ctx, msg) }
 		}
-		return e.genOp(ctx, view, maxID)
-	case k < 77: // close a market (cancels all its orders), then let it accept orders again
+		return e.genOrderPayOp(ctx, view, maxID)
+	case k < 77: // close a market (cancels all its orders, releases all its commitments), then let it accept orders again
 		m := e.markets[r.Intn(len(e.markets))]
+		if len(view.markets) > 0 && r.Intn(3) == 0 {
+			m = view.markets[r.Intn(len(view.markets))]
+		}
 		return fmt.Sprintf("OCloseMarket %d", m), fmt.Sprintf("close-market %d", m), func() error {
 			err := e.handle(ctx, &exchange.MsgGovCloseMarketRequest{Authority: e.auth, MarketId: m})
 			_ = e.handle(ctx, &exchange.MsgMarketUpdateAcceptingOrdersRequest{Admin: e.admin.String(), MarketId: m, AcceptingOrders: true})
@@ -906,6 +1125,263 @@ func (e *c13Env) genOp(ctx sdk.Context, view c13View, maxID uint64) (string, str
 		}
 		msg := &exchange.MsgChangePaymentTargetRequest{Source: p.src, ExternalId: p.ext, NewTarget: nt}
 		return fmt.Sprintf("OPayRetarget %s %s %s", e.addrVar(p.src), c13Str(p.ext), e.addrVar(nt)), fmt.Sprintf("pay-retarget %s %q -> %s", e.names[p.src], p.ext, e.names[nt]), func() error { return e.handle(ctx, msg) }
+	}
+}
+
+// genOp picks the next operation of a history: a forced one (scripted shapes), an order / payment
+// operation (genOrderPayOp) or a commitment / market operation.  Returns the joint model operation
+// term ([xop]), a description, the operation kind and the function performing it.
+func (e *c13Env) genOp(ctx sdk.Context, view c13View, maxID uint64) (string, string, string, func() error) {
+	r := e.r
+	kindOf := func(term string) string { return strings.SplitN(term, " ", 2)[0] }
+	if len(e.forced) > 0 {
+		f := e.forced[0]
+		e.forced = e.forced[1:]
+		if t, d, run := e.genForced(ctx, view, f); t != "" {
+			return t, d, kindOf(strings.TrimPrefix(strings.TrimPrefix(t, "XO ("), "XC (")), run
+		}
+	}
+	if len(e.markets) >= 2 && r.Intn(100) < 34 {
+		if t, d, run := e.genCommitOp(ctx, view, ""); t != "" {
+			return "XC (" + t + ")", d, kindOf(t), run
+		}
+	}
+	t, d, run := e.genOrderPayOp(ctx, view, maxID)
+	return "XO (" + t + ")", d, kindOf(t), run
+}
+
+func (e *c13Env) genForced(ctx sdk.Context, view c13View, f string) (string, string, func() error) {
+	r := e.r
+	pickOwner := func() sdk.AccAddress { return e.owners[r.Intn(len(e.owners))] }
+	coins := func(n int64) sdk.Coins { return sdk.NewCoins(sdk.NewInt64Coin("bbb", n)) }
+	payCreate := func(p c13Pay) (string, string, func() error) {
+		msg := &exchange.MsgCreatePaymentRequest{Payment: exchange.Payment{Source: p.src, SourceAmount: coins(p.amount), Target: p.tgt, ExternalId: p.ext}}
+		return "XO (OPayCreate " + e.payTerm(p) + ")", fmt.Sprintf("pay-create %s %q -> %s", e.names[p.src], c13Short(p.ext), e.names[p.tgt]), func() error { return e.handle(ctx, msg) }
+	}
+	switch f {
+	case "create-ext100":
+		if len(e.markets) == 0 {
+			return "", "", nil
+		}
+		o := c13Order{bid: r.Intn(2) == 0, market: e.markets[r.Intn(len(e.markets))], owner: pickOwner().String(), asset: c13Assets[r.Intn(len(c13Assets))], amount: int64(r.Intn(12) + 1), ext: strings.Repeat("h", 100)}
+		assets := sdk.Coin{Denom: o.asset, Amount: sdkmath.NewInt(o.amount)}
+		price := sdk.NewInt64Coin("pricecoin", o.amount*3)
+		var msg sdk.Msg
+		if o.bid {
+			msg = &exchange.MsgCreateBidRequest{BidOrder: exchange.BidOrder{MarketId: o.market, Buyer: o.owner, Assets: assets, Price: price, AllowPartial: true, ExternalId: o.ext}}
+		} else {
+			msg = &exchange.MsgCreateAskRequest{AskOrder: exchange.AskOrder{MarketId: o.market, Seller: o.owner, Assets: assets, Price: price, AllowPartial: true, ExternalId: o.ext}}
+		}
+		return "XO (OCreate " + e.orderTerm(o) + ")", fmt.Sprintf("create bid=%v m=%d %s %d%s ext=%q", o.bid, o.market, e.names[o.owner], o.amount, o.asset, c13Short(o.ext)), func() error { return e.handle(ctx, msg) }
+	case "pay-empty":
+		return payCreate(c13Pay{src: e.owners[0].String(), ext: "", tgt: e.owners[1].String(), amount: 2})
+	case "pay-x":
+		return payCreate(c13Pay{src: e.owners[0].String(), ext: "x", tgt: "", amount: 1})
+	case "pay-ext100":
+		return payCreate(c13Pay{src: e.owners[r.Intn(len(e.owners))].String(), ext: strings.Repeat("q", 100), tgt: "", amount: 1})
+	default:
+		t, d, run := e.genCommitOp(ctx, view, f)
+		if t == "" {
+			return "", "", nil
+		}
+		return "XC (" + t + ")", d, run
+	}
+}
+
+// genCommitOp generates a commitment / market operation ([cop] term).  [want] forces a kind.
+func (e *c13Env) genCommitOp(ctx sdk.Context, view c13View, want string) (string, string, func() error) {
+	r := e.r
+	pickOwner := func() sdk.AccAddress { return e.owners[r.Intn(len(e.owners))] }
+	known := func(m uint32) bool {
+		for _, x := range view.markets {
+			if x == m {
+				return true
+			}
+		}
+		return false
+	}
+	pickMarket := func() uint32 {
+		if len(view.markets) == 0 || r.Intn(12) == 0 {
+			return []uint32{c13NoMarket, 0, uint32(3 + r.Intn(7))}[r.Intn(3)]
+		}
+		return view.markets[r.Intn(len(view.markets))]
+	}
+	commitsOf := func(m uint32) []c13Commit {
+		var out []c13Commit
+		for _, c := range view.commits {
+			if c.market == m {
+				out = append(out, c)
+			}
+		}
+		return out
+	}
+	partOf := func(cs sdk.Coins) sdk.Coins {
+		var out sdk.Coins
+		for _, c := range cs {
+			if r.Intn(3) != 0 || len(out) == 0 {
+				n := c.Amount.Int64()
+				out = out.Add(sdk.NewInt64Coin(c.Denom, 1+r.Int63n(n)))
+			}
+		}
+		return out
+	}
+	k := r.Intn(100)
+	switch want {
+	case "mcreate-auto", "mcreate-explicit", "mcreate-dup":
+		k = 0
+	case "acct-squat-next":
+		k = 9
+	case "commit":
+		k = 40
+	case "settle":
+		k = 90
+	default:
+		// nothing to release or settle yet: commit instead, most of the time
+		if len(view.commits) == 0 && k >= 60 && r.Intn(5) != 0 {
+			k = 40
+		}
+	}
+	switch {
+	case k < 8: // create a market: next free id, an explicit unused id, or an id already in use
+		id := uint32(0)
+		sel := r.Intn(10)
+		switch want {
+		case "mcreate-auto":
+			sel = 0
+		case "mcreate-explicit":
+			sel = 6
+		case "mcreate-dup":
+			sel = 9
+		}
+		switch {
+		case sel < 6:
+		case sel < 8:
+			id = uint32(3 + r.Intn(7))
+		default:
+			if len(view.markets) > 0 {
+				id = view.markets[r.Intn(len(view.markets))]
+			} else {
+				id = 1
+			}
+		}
+		acc := r.Intn(6) != 0 || want != ""
+		tag := e.nameCtr
+		e.nameCtr++
+		msg := &exchange.MsgGovCreateMarketRequest{Authority: e.auth, Market: exchange.Market{
+			MarketId:        id,
+			MarketDetails:   exchange.MarketDetails{Name: fmt.Sprintf("c13-%d", tag)},
+			AcceptingOrders: true, AllowUserSettlement: true, AcceptingCommitments: acc,
+			AccessGrants: []exchange.AccessGrant{{Address: e.admin.String(), Permissions: exchange.AllPermissions()}},
+		}}
+		return fmt.Sprintf("CMarketCreate %d %s", id, coqBool(acc)), fmt.Sprintf("market-create id=%d accepting=%v tag=%d", id, acc, tag), func() error { return e.handle(ctx, msg) }
+	case k < 12: // an account appears at the address a market id is derived to (a plain bank send)
+		id := uint32(3 + r.Intn(7))
+		if want == "acct-squat-next" || r.Intn(2) == 0 {
+			// the id the next automatic creation would pick
+			id = 1
+			for known(id) {
+				id++
+			}
+			if want == "" && r.Intn(3) == 0 && len(view.markets) > 0 {
+				id = view.markets[r.Intn(len(view.markets))] // an existing market account: nothing changes
+			}
+		}
+		msg := &banktypes.MsgSend{FromAddress: e.admin.String(), ToAddress: exchange.GetMarketAddress(id).String(), Amount: sdk.NewCoins(sdk.NewInt64Coin("pricecoin", 1))}
+		return fmt.Sprintf("CAcctCreate %d", id), fmt.Sprintf("send-to-market-address %d", id), func() error { return e.handle(ctx, msg) }
+	case k < 19: // switch commitments on / off (by the governance authority)
+		m := pickMarket()
+		b := r.Intn(4) != 0
+		msg := &exchange.MsgMarketUpdateAcceptingCommitmentsRequest{Admin: e.auth, MarketId: m, AcceptingCommitments: b}
+		return fmt.Sprintf("CSetAccepting %d %s", m, coqBool(b)), fmt.Sprintf("accepting-commitments m=%d %v", m, b), func() error { return e.handle(ctx, msg) }
+	case k < 60: // commit funds
+		m := pickMarket()
+		a := pickOwner()
+		amt := sdk.NewCoins(sdk.NewInt64Coin([]string{"aaa", "aaab", "bbb"}[r.Intn(3)], int64(1+r.Intn(9))))
+		if r.Intn(3) == 0 {
+			amt = amt.Add(sdk.NewInt64Coin([]string{"aaa", "bbb", "pricecoin"}[r.Intn(3)], int64(1+r.Intn(5))))
+		}
+		switch r.Intn(30) {
+		case 0:
+			amt = sdk.Coins{} // nothing
+		case 1:
+			amt = sdk.Coins{sdk.NewInt64Coin("bbb", 2), sdk.NewInt64Coin("aaa", 1)} // not sorted
+		case 2:
+			amt = sdk.Coins{sdk.Coin{Denom: "aaa", Amount: sdkmath.ZeroInt()}} // a zero coin
+		}
+		msg := &exchange.MsgCommitFundsRequest{Account: a.String(), MarketId: m, Amount: amt}
+		return fmt.Sprintf("CCommit %d %s %s", m, e.addrVar(a.String()), c13Coins(amt)), fmt.Sprintf("commit m=%d %s %s", m, e.names[a.String()], amt), func() error { return e.handle(ctx, msg) }
+	case k < 80: // release commitments
+		m := pickMarket()
+		if len(view.commits) > 0 && r.Intn(8) != 0 {
+			m = view.commits[r.Intn(len(view.commits))].market
+		}
+		cs := commitsOf(m)
+		var entries []exchange.AccountAmount
+		if len(cs) > 0 {
+			perm := r.Perm(len(cs))
+			n := 1 + r.Intn(2)
+			if n > len(cs) {
+				n = len(cs)
+			}
+			for _, i := range perm[:n] {
+				c := cs[i]
+				switch r.Intn(6) {
+				case 0, 1:
+					entries = append(entries, exchange.AccountAmount{Account: c.acct}) // everything
+				case 2:
+					entries = append(entries, exchange.AccountAmount{Account: c.acct, Amount: c.amount.Add(sdk.NewInt64Coin(c.amount[0].Denom, 1))}) // too much
+				case 3:
+					entries = append(entries, exchange.AccountAmount{Account: c.acct, Amount: c.amount}) // exactly everything
+				default:
+					entries = append(entries, exchange.AccountAmount{Account: c.acct, Amount: partOf(c.amount)})
+				}
+			}
+			if r.Intn(8) == 0 { // the same account twice
+				entries = append(entries, exchange.AccountAmount{Account: entries[0].Account, Amount: partOf(cs[perm[0]].amount)})
+			}
+		} else {
+			entries = []exchange.AccountAmount{{Account: pickOwner().String()}}
+		}
+		msg := &exchange.MsgMarketReleaseCommitmentsRequest{Admin: e.admin.String(), MarketId: m, ToRelease: entries}
+		return fmt.Sprintf("CRelease %d %s", m, e.entriesTerm(entries)), fmt.Sprintf("release m=%d %d entries", m, len(entries)), func() error { return e.handle(ctx, msg) }
+	default: // settle commitments: funds move between accounts and stay committed
+		if len(view.commits) == 0 {
+			return "", "", nil
+		}
+		m := view.commits[r.Intn(len(view.commits))].market
+		cs := commitsOf(m)
+		a := cs[r.Intn(len(cs))]
+		var inputs, outputs, fees []exchange.AccountAmount
+		inA := partOf(a.amount)
+		inputs = append(inputs, exchange.AccountAmount{Account: a.acct, Amount: inA})
+		if len(cs) > 1 && r.Intn(3) != 0 {
+			b := cs[r.Intn(len(cs))]
+			if b.acct != a.acct {
+				inB := partOf(b.amount)
+				inputs = append(inputs, exchange.AccountAmount{Account: b.acct, Amount: inB})
+				outputs = append(outputs, exchange.AccountAmount{Account: b.acct, Amount: inA}, exchange.AccountAmount{Account: a.acct, Amount: inB})
+			}
+		}
+		if len(outputs) == 0 {
+			to := pickOwner()
+			for to.String() == a.acct {
+				to = pickOwner()
+			}
+			outputs = append(outputs, exchange.AccountAmount{Account: to.String(), Amount: inA})
+		}
+		if r.Intn(2) == 0 {
+			left, neg := a.amount.SafeSub(inA...)
+			if !neg && !left.IsZero() {
+				fees = append(fees, exchange.AccountAmount{Account: a.acct, Amount: partOf(left)})
+			} else if r.Intn(3) == 0 {
+				fees = append(fees, exchange.AccountAmount{Account: a.acct, Amount: sdk.NewCoins(sdk.NewInt64Coin(a.amount[0].Denom, 1))}) // not committed
+			}
+		}
+		if r.Intn(15) == 0 {
+			outputs[0].Amount = outputs[0].Amount.Add(sdk.NewInt64Coin(outputs[0].Amount[0].Denom, 1)) // totals differ
+		}
+		msg := &exchange.MsgMarketCommitmentSettleRequest{Admin: e.admin.String(), MarketId: m, Inputs: inputs, Outputs: outputs, Fees: fees}
+		return fmt.Sprintf("CSettle %d %s %s %s", m, e.entriesTerm(inputs), e.entriesTerm(outputs), e.entriesTerm(fees)), fmt.Sprintf("commit-settle m=%d %d in %d out %d fees", m, len(inputs), len(outputs), len(fees)), func() error { return e.handle(ctx, msg) }
 	}
 }
 
